@@ -2855,6 +2855,10 @@ class PGPKeyring(collections_abc.Container, collections_abc.Iterable, collection
     def _get_keys(self, alias):
         return [self._keys[m[alias]] for m in self._aliases if alias in m]
 
+    def _get_keys_by_id(self, keyid):
+        # the keys that an issuer key id stands for: the alias may also be the name, comment or e-mail of other keys
+        return [key for key in self._get_keys(keyid) if key.fingerprint == keyid] if keyid is not None else []
+
     def _sort_alias(self, alias):
         # remove alias from all levels of _aliases, and sort by created time and key half
         # so the order of _aliases from left to right:
@@ -2965,17 +2969,24 @@ class PGPKeyring(collections_abc.Container, collections_abc.Iterable, collection
         :raises: :py:exc:`KeyError` if there is no loaded key that satisfies the identifier.
         """
         if isinstance(identifier, PGPMessage):
-            known = [issuer for issuer in identifier.issuers if issuer in self]
+            known = [issuer for issuer in identifier.issuers if self._get_keys_by_id(issuer)]
             if not known:
                 raise KeyError(identifier)
 
             # an encrypted message is of use to a key that can decrypt it: of several recipients, prefer one
             # whose private half is loaded over another recipient's public key
-            private = [issuer for issuer in known if not self._get_key(issuer).is_public]
-            identifier = private[0] if identifier.is_encrypted and private else known[0]
+            private = [issuer for issuer in known if not self._get_keys_by_id(issuer)[0].is_public]
+            yield self._get_keys_by_id(private[0] if identifier.is_encrypted and private else known[0])[0]
+            return
 
         if isinstance(identifier, PGPSignature):
-            identifier = identifier.signer
+            # the issuer is named by key id: a name, comment or e-mail address that reads like it is not the issuer
+            issuers = self._get_keys_by_id(identifier.signer)
+            if not issuers:
+                raise KeyError(identifier.signer)
+
+            yield issuers[0]
+            return
 
         yield self._get_key(identifier)
 
